@@ -221,12 +221,50 @@ Qed.
 
 Theorem oracle_no_stricter_than_model : forall c, corr_b c = true -> prop_b c = true.
 Proof.
-  intros [init ops obs|n xs obs|] H; simpl in *.
-  - apply andb_prop in H. destruct H as [_ H].
+  intros [init xs obs|n xs obs|] H; simpl in *.
+  - destruct (strip_orders init xs obs) as [[ops os]|]; [|discriminate].
+    apply andb_prop in H. destruct H as [_ H].
     apply (corr_run_prop_run _ ops (of_entries init)); auto.
     intros c _. symmetry. apply lookup_of_entries.
-  - apply (ecorr_run_prop_run n _ xs eempty); auto.
+  - destruct (strip_engine (repeat [] (N.to_nat n)) xs obs) as [[ys os]|]; [|discriminate].
+    apply (ecorr_run_prop_run n _ ys eempty); auto.
     + rewrite repeat_length. lia.
     + apply eview_empty.
   - discriminate.
+Qed.
+
+(* ---- persist / restore steps ------------------------------------------------------------------- *)
+
+(** runs are invariant under inserting persist / restore steps anywhere *)
+Theorem persist_invariant : forall xs s, fold_left xstep xs s = run (ops_of xs) s.
+Proof.
+  induction xs as [|[o|b] xs IH]; intros s; simpl; auto.
+Qed.
+
+Theorem persist_invariant_engine : forall xs e, fold_left xestep xs e = erun (eops_of xs) e.
+Proof.
+  induction xs as [|[x|b] xs IH]; intros e; simpl; auto.
+Qed.
+
+(** what the judge runs the model on is the case's step list without its persist steps *)
+Lemma strip_orders_ops : forall xs prev obs ops os,
+  strip_orders prev xs obs = Some (ops, os) -> ops = ops_of xs.
+Proof.
+  induction xs as [|[o|b] xs IH]; intros prev obs ops os H; destruct obs as [|cur obs];
+    simpl in H; try discriminate.
+  - injection H as <- <-. reflexivity.
+  - destruct (strip_orders cur xs obs) as [[ops' os']|] eqn:E; [|discriminate].
+    injection H as <- <-. simpl. f_equal. eapply IH; eauto.
+  - destruct (b && list_eqb entry_eqb prev cur); [|discriminate]. simpl. eapply IH; eauto.
+Qed.
+
+Lemma strip_engine_ops : forall xs prev obs ys os,
+  strip_engine prev xs obs = Some (ys, os) -> ys = eops_of xs.
+Proof.
+  induction xs as [|[x|b] xs IH]; intros prev obs ys os H; destruct obs as [|cur obs];
+    simpl in H; try discriminate.
+  - injection H as <- <-. reflexivity.
+  - destruct (strip_engine cur xs obs) as [[ys' os']|] eqn:E; [|discriminate].
+    injection H as <- <-. simpl. f_equal. eapply IH; eauto.
+  - destruct (b && list_eqb (list_eqb entry_eqb) prev cur); [|discriminate]. simpl. eapply IH; eauto.
 Qed.
